@@ -396,6 +396,7 @@ def scenarios(tier, seed):
         add("kernel", kind="multitask", pbs=[2], dbs1=[], dbs2=[])
         add("hamming_batch", pbs=[2], dbs=[2])
         add("hamming_batch", pbs=[3], dbs=[])
+        add("hamming_batch", pbs=[], dbs=[2])
         add("mean_grad", cls="linear_grad", pbs=[2], dbs=[])
         add("mean_grad", cls="linear_gradgrad", pbs=[2], dbs=[2, 1])
         add("mean_grad", cls="constant_grad", pbs=[2], dbs=[3, 2])
